@@ -10,6 +10,9 @@ import (
 type GroupTable struct {
 	Numbers []int
 	Names   []string
+	// ECMA selects the ECMAScript rule for an unbraced $ followed by digits: the longest prefix of
+	// the digit run that is a group number is the reference, the remaining digits are literal text
+	ECMA bool
 }
 
 func (g *GroupTable) slotOfNumber(n int) int {
@@ -108,6 +111,21 @@ func Expand(repl string, gt *GroupTable, m *MatchView) string {
 		case c == '_':
 			sb.WriteString(string(m.Input))
 			i++
+		case c >= '0' && c <= '9' && gt.ECMA:
+			best, bestEnd := -1, i
+			n := 0
+			for j := i + 1; j < len(r) && r[j] >= '0' && r[j] <= '9' && n < 1<<40; j++ {
+				n = n*10 + int(r[j]-'0')
+				if s := gt.slotOfNumber(n); s >= 0 {
+					best, bestEnd = s, j
+				}
+			}
+			if best >= 0 {
+				sb.WriteString(m.Groups[best])
+				i = bestEnd
+			} else {
+				sb.WriteRune('$')
+			}
 		case c >= '0' && c <= '9':
 			j := i + 1
 			n := 0
